@@ -248,6 +248,9 @@ def _validate_frontend_args(parser, lexer) -> None:
 
 
 def _get_lexer_callbacks(transformer, terminals):
+    if not getattr(transformer, '__visit_tokens__', True):
+        # Transformer(visit_tokens=False) leaves tokens alone, embedded or not
+        return {}
     result = {}
     for terminal in terminals:
         callback = getattr(transformer, terminal.name, None)
